@@ -338,6 +338,7 @@ class _RunLog:
     self.overlaps = []    # (group, still pending trial, newly delivered trial)
     self.rendezvous = None
     self.stop = False
+    self.early_bad = []   # (trial, status) after a done() that had nothing to report
 
 
 def _worker(cfg, widx, group, leader, algo, space, name, log, evs, start_evt, first_evt, r):
@@ -464,6 +465,8 @@ def _worker(cfg, widx, group, leader, algo, space, name, log, evs, start_evt, fi
             raise
           except Exception:  # pylint: disable=broad-except
             pass
+          if not (racing or single) and fb.get_trial().status != 'PENDING':
+            log.early_bad.append((tid, fb.get_trial().status))   # (nobody else holds it)
           fb(rew)
         elif act == 'redo':
           # operations on a trial this worker has finished change nothing.
@@ -584,6 +587,12 @@ def check_run(obs):
   # (Known on the unchanged tree, about 1 run in 900 with racing co-workers:
   # building the RaceConditionError message formats the trial while the
   # co-worker's feedback updates the DNA metadata -> RuntimeError.)
+  if 'early' in cfg['actions'] and scen == 'solo-groups':
+    put('finish.too-early-done-leaves-the-trial-pending/solo-groups', not log.early_bad,
+        '(trial, status) right after its only worker called done() before any measurement '
+        f'existed (nothing to report, so it cannot be complete): {log.early_bad[:4]}')
+    if log.early_bad:
+      return out
   put(f'worker.no-unexpected-exception/{scen}', not log.errors,
       f'worker errors: {log.errors[:3]}')
   result = obs['result']
@@ -1088,6 +1097,9 @@ _LS_GIDS = {
     'mixed-int-str': ['', 0, 'zero'],
     'odd-str': [' ', 'None', '0.0'],
     'big-int': [2 ** 63, -2 ** 31, 10 ** 20],
+    # distinct ids that a normalisation (case, blanks, sign) would merge
+    'str-near-duplicates': ['a', 'A', ' a'],
+    'int-sign-pairs': [1, -1, 2],
 }
 _LS_HYPER_EXPR = "pg.oneof([1, 2, 3, 4, 5])"    # (a small one: decoding is slow)
 _LS_NAMES = ('plain', ' ', '0', 'a/b c', 'None', 'é中')
@@ -1124,7 +1136,9 @@ def _ls_worker(spec, widx, g, k, kk, name, algo, space, shared):
       act = _LS_ACTS[(rnd + spec['salt'] + (0 if g is None else spec['gids'].index(g))) % len(_LS_ACTS)]
       fin = (rnd + spec['salt']) % kk                     # the co-worker that finishes
       other = (fin + 1) % kk
-      rew = None if fb is None else float(fb.id * 10 + rnd)
+      # ('non-positive': trial 1 has reward 0.0, the maximum; all others are negative)
+      rew = None if fb is None else (
+          -10.0 * (fb.id - 1) if spec.get('rewards') == 'non-positive' else float(fb.id * 10 + rnd))
       if (fb is not None and finishing and act == 'early-split' and kk > 1 and k == fin):
         # phase 0: the 'evaluator' is too early.  With no measurement there is
         # nothing to report, so the trial cannot be completed by this call.
@@ -1311,7 +1325,8 @@ def _lockstep_specs(tier, seed):
           yield dict(gids=gids, K=kk, solos=solos, rounds=rounds, finish=finish, N=n,
                      salt=r.randrange(100), reenter=r.random() < 0.4, kw=kw,
                      name=r.choice(_LS_NAMES),
-                     space=r.choice((_LS_HYPER_EXPR, _SPACE_EXPR, _SPACE_EXPR)), pool=pool)
+                     space=r.choice((_LS_HYPER_EXPR, _SMALL_SPACE_EXPR, _SPACE_EXPR)), pool=pool,
+                     rewards=r.choice(('positive', 'non-positive')))
   # only solo workers (group=None): each is a group of its own.
   for solos in (1, 2, 5):
     rounds = 4
@@ -1332,13 +1347,13 @@ def drv_lockstep_groups(tier, seed):
   rec = Recorder(
       'C16', 'named pg.sample loop, barrier-driven schedules: group ids, names, N, re-entry',
       scope=('deterministic lock-step schedules (barriers) of 1..9 worker threads on one named in-memory '
-             'loop: 1..3 groups x 1..3 co-workers (quick: 6 of the 9 shapes) + 0..2 workers without group; group ids from 8 pools of '
+             'loop: 1..3 groups x 1..3 co-workers (quick: 6 of the 9 shapes) + 0..2 workers without group; group ids from 10 pools of '
              'the documented type (str, positive ints, ints from 0, empty string, non-positive ints, ints and '
-             'strings mixed, odd strings, big ints); 3..5 rounds, in every round all workers ask for their '
+             'strings mixed, odd strings, big ints, strings differing in case/blanks, ints differing in sign); 3..5 rounds, in every round all workers ask for their '
              'trial, then one co-worker finishes it (call / 2 measurements + done / skip / measurement + skip '
              '/ measurement by one co-worker and done() by another, also after a too early done() / all '
              'co-workers at once) or, in some rounds, nobody does (the trial must be handed out again); '
-             'N ample, exactly the demand, less, 1, 0; odd study names; hyper value or DNASpec as space; '
+             'N ample, exactly the demand, less, 1, 0; rewards positive or 0.0 and negative; odd study names; hyper value or DNASpec as space; '
              'default and explicit in-memory backend; workers that leave the loop and re-enter it; '
              + ('quick: 1 seeded draw per (pool, co-workers, groups)' if tier == 'quick'
                 else 'thorough: 4 seeded draws per (pool, co-workers, groups)')))
@@ -1358,6 +1373,8 @@ _SEQ_CLOSE = ('add', 'done')      # the proper finish that ends every sequence
 
 
 def _seq_reward(tid, i):
+  if tid % 3 == 0:
+    return float(i) - 1.0       # small ones, among them 0.0 and -1.0
   return float(tid * 100 + i)
 
 
@@ -1455,7 +1472,7 @@ def run_sequences(seqs, mode, tag, group=None):
   Returns a list of (case_id, key, ok, message).
   """
   name = f'c16seq-{os.getpid()}-{next(_run_counter)}-{tag}'
-  space = eval(_SPACE_EXPR, _NS)  # pylint: disable=eval-used
+  space = eval(_SMALL_SPACE_EXPR, _NS)  # pylint: disable=eval-used
   algo = _make_algo('random', 7)
   algo.setup(space)
   nw = 1 if mode == 'solo' else 2
@@ -1528,6 +1545,8 @@ def run_sequences(seqs, mode, tag, group=None):
     else:
       wb = pb
     gb = None if best is None else (best.id, best.final_measurement and best.final_measurement.reward)
+    if not want_inf and pb is not None and outcome[1] == pb[1] and gb == (tid, outcome[1]):
+      wb = gb                      # (a tie: either trial is one with maximal reward)
     note(f'{pre}/best-trial', key,
          gb == wb and (None if not sb else (sb.get('id'), sb.get('reward'))) == wb,
          f'after {ops} on trial {tid}: best trial (id, reward) {gb}, summary {sb}; before: {pb}; '
